@@ -26,7 +26,7 @@ def run_case(case, rng):
     from mon.gen import build as Bd
     from mon.probe import read as Rd
 
-    fam = rng.choice(["any", "any", "proper", "sspneg", "zerocycle", "properneg"])
+    fam = rng.choice(["any", "any", "proper", "sspneg", "zerocycle", "zerocycle", "zerocycle", "properneg"])
     n_max = 10 if case.tier == "thorough" and rng.random() < 0.3 else 7
     if fam == "properneg":
         sp = G.random_spec(rng, "proper", n_max=n_max, gamma=1.0, reward_sign="neg")
@@ -39,7 +39,7 @@ def run_case(case, rng):
     if not rep.endswith("explicit"):
         G.restrict_to_closure(sp, rng)
     mdp = Bd.build(sp, rep, shuffle_rng=rng)
-    pol = G.random_policy(rng, sp)
+    pol = G.random_policy(rng, sp, prefer_zero_reward=(sp.gamma == 1.0 and rng.random() < 0.7))
     pres = rng.choice(["same", "permuted", "to_tabular"])
     case.family = fam
     case.params = dict(rep=rep, gamma=sp.gamma, n=len(sp.states), presentation=pres)
@@ -100,6 +100,10 @@ def run_case(case, rng):
     case.sig(fam, len(S), len(A), gamma, tuple(sp.meta.get("abs_kinds", [])), rep, pres,
              int((pim > 0).sum()), int((arr.T > 0).sum()), int(np.isinf(Vr).sum()),
              round(float(np.nansum(np.where(np.isfinite(Vr), Vr, 0))), 6))
+    if gamma == 1.0:
+        case.count("undiscounted_cases")
+        case.count("cases_with_minus_inf_values", int(np.isneginf(Vr).any()))
+        case.count("cases_with_zero_reward_recurrent_class", int((ev["recurrent"] & (ev["r"] == 0)).any()))
     case.sample = dict(spec=sp.describe(), policy={repr(s): {repr(a): p for a, p in r.items()}
                                                    for s, r in list(pol.items())[:6]},
                        reference_V=[repr(float(v)) for v in Vr], presentation=pres)
